@@ -148,6 +148,12 @@ def run_case(case, ctx):
         p = build(case["p"], case.get("ord"))
         sc = build(case["sc"], case.get("ord"))
         names = ["u0", "u1"] if case["twice"] else ["u0"]
+        if r.random() < 0.25:
+            kid_nets = [n for n, t in zip(case["sc"]["names"], case["sc"]["ty"]) if t not in ("input", "bb_input", "bb_output") and "." not in n]
+            if kid_nets:
+                inst = "u0_" + r.choice(sorted(kid_nets))
+                if inst not in p.blackboxes and not any(n.startswith(inst + ".") for n in p.nodes()):
+                    p.add_blackbox(cg.BlackBox("ff", ["d"], ["q"]), inst, {"d": sorted(n for n in p.nodes() if p.type(n) not in ("bb_input", "bb_output"))[0]})
         for name in names:
             pp = proj(p)
             conns, extra = _conn_add_sub(r, pp, case["sc"], case["strip"])
